@@ -335,6 +335,26 @@ template<class PP> static std::string run_retarget_cfg(std::istringstream& is)
 	if (kit::W().live_blocks() != 0 || !kit::W().errors.empty()) out += " LEAK";
 	return out;
 }
+// ---- MemPool::pvCheckParams through the constructor the allocator uses (pool_allocator.h:77, 119) ---------------------
+// case: checkparams bc cf size align ; output: ok <blockSize> <blockAlignment> | length_error   (a failing MOMO_CHECK aborts -> CRASH line)
+template<class PP> static std::string run_checkparams_cfg(size_t size, size_t align)
+{
+	try
+	{
+		PoolOf<PP> pool(PP(size, align), momo::MemManagerStd<Base>(Base(BASE_ID)));
+		return "ok " + std::to_string(pool.GetBlockSize()) + " " + std::to_string(pool.GetBlockAlignment());
+	}
+	catch (const std::length_error&) { return "length_error"; }
+}
+static std::string run_checkparams(std::istringstream& is)
+{
+	int bc = 0, cf = 0; unsigned long long size = 0, align = 0; is >> bc >> cf >> size >> align;
+	if (bc == 32 && cf == 16) return run_checkparams_cfg<momo::MemPoolParams<>>(size, align);
+	if (bc == 4 && cf == 0) return run_checkparams_cfg<momo::MemPoolParams<4, 0>>(size, align);
+	if (bc == 1 && cf == 2) return run_checkparams_cfg<momo::MemPoolParams<1, 2>>(size, align);
+	if (bc == 127 && cf == 1) return run_checkparams_cfg<momo::MemPoolParams<127, 1>>(size, align);
+	return "FAIL unknown configuration";
+}
 // case: retarget bc cf s1 a1 k s2 a2
 static std::string run_retarget(std::istringstream& is)
 {
@@ -503,6 +523,7 @@ static std::string run_case(const std::string& line)
 	Tracer& g = G(); g.reset();
 	std::string res;
 	if (kind == "retarget") { g_alloc = "none"; return run_retarget(is); }
+	if (kind == "checkparams") { g_alloc = "none"; return run_checkparams(is); }
 	if (kind.compare(0, 6, "direct") == 0) { g.on = true; alloc = "mon" + kind.substr(6); }
 	else { is >> alloc; g.on = (alloc.compare(0, 3, "mon") == 0); }
 	g_alloc = alloc;
